@@ -416,6 +416,13 @@ def examine_circuit_sweep(ctx, rng, n):
                     ctx.violation('C06:wrong-circuit-element-impedance', f'seen by {c["id"]!r} at w={w}: {single[k]}, exact {complex(want)}',
                                   dict(rep, w=w))
                     break
+                if w == 0.0:
+                    try:
+                        r = cimp.element_dc_resistance(circuit, c['id'])
+                        if abs(r - complex(want).real) > 1e-7 * zscale:
+                            ctx.violation('C06:wrong-dc-resistance', f'element_dc_resistance({c["id"]!r}) = {r} vs {complex(want).real}', dict(rep, w=0.0))
+                    except Exception as e:  # noqa: BLE001
+                        ctx.violation(f'C06:circuit-impedance-raises-{type(e).__name__}', 'element_dc_resistance', dict(rep, w=0.0))
 
 
 def run(ctx):
